@@ -10,7 +10,7 @@ from chython.exceptions import InvalidAromaticRing
 
 ID = 'C13'
 RULE = ('histories over an alphabet of 17 mutators (add_atom, add_bond 1/2, delete_atom, delete_bond, charge / radical '
-        'change inside `with mol:`, mixed transaction (structural edits + partial remap + label edits in one block, 6 shapes), '
+        'change inside `with mol:`, mixed transaction (structural edits + partial remap + label edits in one block, 8 shapes), '
         'raising transaction, remap, copy+edit, substructure+edit, |, |=, kekule/thiele, '
         'clean_stereo, coordinate edit on a copy) with a reader of derived values (str, hash, sssr, atoms_order, brutto, '
         'rings_count, components, fingerprints, stereo views ...) interposed before every mutator: exhaustive sequences up '
@@ -383,12 +383,20 @@ def txn_prims(mol, a, b, k):
     atom numbers are decided here so that the recorded history replays without this function"""
     atoms = list(mol._atoms)
     base = max(atoms) + 1
-    v = k % 6
+    v = k % 8
     if v == 0:      # new atom bonded to a, only the new atom renumbered
         return [('add_atom', 'N', base), ('add_bond', a, base, 1), ('remap', [(base, base + 5)])]
     if v == 1:      # new atom bonded to a, only the old atom renumbered
         return [('add_atom', 'C', base), ('add_bond', a, base, 1), ('remap', [(a, base + 3)])]
+    others = [x for x in atoms if x != a and x not in mol._bonds[a]]
+    if v == 6 and others:   # structural edit on one atom, label edit on an atom the structural edit does not touch
+        c = others[k % len(others)]
+        return [('add_atom', 'C', base), ('add_bond', a, base, 1), ('charge', c, -1 if mol._atoms[c].charge != -1 else 0)]
     bl = [(n, m) for n, m, _ in mol.bonds()]
+    if v == 7 and bl and others:
+        n, m = bl[k % len(bl)]
+        c = ([x for x in others if x not in (n, m)] or others)[0]
+        return [('delete_bond', n, m), ('radical', c)]
     if v == 2 and bl:  # bond removed, one of its ends renumbered
         n, m = bl[k % len(bl)]
         return [('delete_bond', n, m), ('remap', [(m, base)])]
@@ -478,7 +486,7 @@ def apply(ctx, mol, op, k, hist):
         return mol, True
     if op == 'txn_seq':
         prims = txn_prims(mol, a, b, k)
-        ctx.count('txn.mixed.variant-%d' % (k % 6))
+        ctx.count('txn.mixed.variant-%d' % (k % 8))
         hist.append(('txn_seq', prims))      # recorded first: a raising block keeps its witness
         with mol:
             for st in prims:
